@@ -1,7 +1,9 @@
 //! buildsim -- engine A: the build-world simulator (DESIGN section 2).
 
+mod c20;
 mod c21;
 mod c22;
+mod c23;
 mod check;
 mod engine;
 mod model;
@@ -32,8 +34,10 @@ fn main() {
     println!("VERIF_SEED={seed}");
     let engine = Engine::new();
     let code = match args[0].as_str() {
+        "c20" => c20::run(&engine, args.get(1).map(|s| s.as_str()).unwrap_or("quick"), seed),
         "c21" => c21::run(&engine, args.get(1).map(|s| s.as_str()).unwrap_or("quick"), seed),
         "c22" => c22::run(&engine, args.get(1).map(|s| s.as_str()).unwrap_or("quick"), seed),
+        "c23" => c23::run(&engine, args.get(1).map(|s| s.as_str()).unwrap_or("quick"), seed),
         "replay" => engine::replay_file(&engine, args.get(1).map(|s| s.as_str()).unwrap_or_else(|| usage())),
         _ => usage(),
     };
